@@ -23,12 +23,22 @@
     [C06_draws]       and that count is literally the set of draws selecting
                       the entry's target: an interval inside [0, 2^23).
     [C06_one]         a probability-1 transition is always taken.
-    [C06_none]        no declared transitions: no move and no draw consumed. *)
+    [C06_none]        no declared transitions: no move and no draw consumed.
+    [C06_dispatch]    the framework acts on the sampled target and on nothing
+                      else: one step of a live machine is EXACTLY, by cases on
+                      the outcome of the draw, (none) only the tape position,
+                      the step counter and the log change -- runtimes, action
+                      slots, accounting and pending signal are untouched
+                      ([C06_no_target_frame]); (END) the machine's state becomes
+                      STATE_END, nothing else; (SIGNAL) the pending signal is
+                      joined with this machine, its state is unchanged;
+                      (regular target) entering that state: limit sampling on a
+                      change of state, counter update, action scheduling. *)
 From Coq Require Import Reals.
 From Flocq Require Import Core.Core IEEE754.BinarySingleNaN.
 From MB Require Import Model.Framework Model.Validate.
 From MB Require Import Model.Thresholds Proofs.SampleState.
-From MB Require Proofs.SampleShare.
+From MB Require Proofs.SampleShare Proofs.FrameworkCorollaries.
 Open Scope Z_scope.
 
 Theorem C06_thresholds : forall n v (k : N),
@@ -83,3 +93,30 @@ Example C06_example :
   map thr (sums [(0%N, 1056964608%N); (1%N, 1048576000%N); (2%N, 1048576000%N)] f32_zero)
   = [4194304; 6291456; 8388608].
 Proof. vm_compute. reflexivity. Qed.
+
+Theorem C06_dispatch : forall fuel c tp s mi ev r m st o p',
+  nth_error (rts s) mi = Some r -> cur r <> STATE_END ->
+  nth_error (machines c) mi = Some m -> nthN (states m) (cur r) = Some st ->
+  sample_state tp (pos s) st ev = (o, p') ->
+  transition (S fuel) c tp s mi ev = FrameworkCorollaries.dispatch fuel c tp s mi ev r m o p'.
+Proof. exact FrameworkCorollaries.transition_dispatch. Qed.
+Print Assumptions C06_dispatch.
+
+(** the four cases of [dispatch], pinned *)
+Lemma C06_dispatch_cases : forall fuel c tp s mi ev r m o p',
+  FrameworkCorollaries.dispatch fuel c tp s mi ev r m o p' =
+  match o with
+  | None => Ok (FrameworkCorollaries.trans_drawn s mi ev p', false)
+  | Some ns =>
+      if (ns =? STATE_END)%N then
+        Ok (set_rt (FrameworkCorollaries.trans_next s mi ev p' ns) mi (rt_set_cur r STATE_END (lim r)), true)
+      else if (ns =? STATE_SIGNAL)%N then
+        Ok (set_sigp (add_log (FrameworkCorollaries.trans_next s mi ev p' ns) (LOG_SIGSET, N.of_nat mi, 0%N))
+                     (Some (sig_join (sigp s) mi)), false)
+      else FrameworkCorollaries.trans_regular fuel c tp (FrameworkCorollaries.trans_next s mi ev p' ns) mi r m ns
+  end.
+Proof. reflexivity. Qed.
+
+Check FrameworkCorollaries.transition_none_frame.
+Definition C06_no_target_frame := FrameworkCorollaries.transition_none_frame.
+Print Assumptions C06_no_target_frame.
